@@ -205,3 +205,36 @@ Fixpoint consumed (H : nat -> nat -> nat -> nat) (n : nat) (s : state) (evs : li
   | [] => []
   | (h, m) :: r => consume_at H n s h m ++ consumed H (S n) (snd (step H n s h m)) r
   end.
+
+(* ------------------------------------------------------------------ the hash preimage *)
+
+(** How the vote handler turns the two user-supplied fields of MsgAggregateExchangeRateVote into
+    the preimage of the reveal hash (msg_server.go AggregateExchangeRateVote ->
+    types/hash.go GetAggregateVoteHash: SHA256(salt ":" rates ":" valoper)[:20]).
+    Salts and rate strings are ids of EXACT byte strings (two strings that differ in one byte —
+    a trailing blank, a tab, the case of a letter, a Unicode normalisation form — have two ids);
+    [pi_salt x] / [pi_rates x] is the id of the byte string that is hashed in the place of string
+    [x].  On the pinned tree nothing is applied to either field: both are the identity
+    ([pi_exact]; generated facts Gen/C11Facts.v [hash_preimage] / [vote_hash_calls], obligation
+    C11_hash_preimage_exact), and [step_pi pi_exact H] is [step H].  Any normalisation in the
+    helper or in the handler (TrimSpace, ToLower, re-rendering of the parsed tuples, …) is a
+    non-identity [pi]. *)
+Record preimage := { pi_salt : nat -> nat; pi_rates : nat -> nat }.
+
+Definition pi_exact : preimage := {| pi_salt := fun x => x; pi_rates := fun x => x |}.
+
+(** the hash the CODE compares with the stored commitment, given the hash oracle [H] over exact
+    triples *)
+Definition H_code (pi : preimage) (H : nat -> nat -> nat -> nat) : nat -> nat -> nat -> nat :=
+  fun salt rates v => H (pi_salt pi salt) (pi_rates pi rates) v.
+
+Definition step_pi (pi : preimage) (H : nat -> nat -> nat -> nat) := step (H_code pi H).
+Definition run_pi (pi : preimage) (H : nat -> nat -> nat -> nat) := run (H_code pi H).
+Definition consumed_pi (pi : preimage) (H : nat -> nat -> nat -> nat) := consumed (H_code pi H).
+
+(** a normalisation given as a finite table (string id -> id of its normal form; identity elsewhere) *)
+Fixpoint norm_of (tbl : list (nat * nat)) (x : nat) : nat :=
+  match tbl with
+  | [] => x
+  | (a, b) :: r => if a =? x then b else norm_of r x
+  end.
